@@ -74,6 +74,7 @@ class CustomOperationGenerator:
             self.convert_to_snake_case,
             self.plugin_manager,
             input_types_module_name=input_types_module_name,
+            enums_module_name=enums_module_name,
         )
 
         self._class_def = generate_class_def(name=name, base_names=[])
